@@ -40,7 +40,7 @@ CONFIG = dict(
     min_nontrivial={"quick": 1500, "thorough": 20000},
     nshards={"quick": 8, "thorough": 16},
     timeout={"quick": 900, "thorough": 5400},
-    required_counters=("rewritten_file_loads", "unwritable_report_loads", "gate_checks", "returned_loads_compared", "nonreturning_effect_checks",
+    required_counters=("threaded_load_rounds", "threaded_yields_injected", "worker_thread_loads", "rewritten_file_loads", "unwritable_report_loads", "gate_checks", "returned_loads_compared", "nonreturning_effect_checks",
                        "failpoints_fired", "toctou_swaps", "executed_vs_analysed_compared", "sequence_probes"),
 )
 
@@ -836,8 +836,86 @@ def unwritable_report(ctx, mods):
             os.remove(pth)
 
 
+def threaded_loads(ctx, mods):
+    """Checked loads from several threads at once (a scanning service, data-loader workers): every load
+    must end exactly as the same load ends single-threaded - a flagged pickle refused with its own
+    verdict and nothing of it run, a benign one returned - whatever another thread is loading meanwhile.
+    Yields are injected inside the library's frames (vp.threads) so that the analyses interleave."""
+    from vp import threads
+    import vp_sink
+    fickling, f, analysis, loader, hook, U = mods
+    agg = ctx.agg
+    fl = [(l, d) for l, d in flagged_inputs() if l.startswith(("unsafe-sink", "suspicious", "lom-getpid"))]
+    fl = fl[ctx.shard::max(1, len(fl) // 5)][:5]
+    benign = [(f"benign-{i}", pickle.dumps(v, pr)) for i, (v, pr) in enumerate(
+        [([1, 2, 3], 2), ({"a": (1, 2.5)}, 4), ("text" * 5, 0), ([[i] for i in range(25)], 5)])]
+
+    def one(data, path, thr):
+        try:
+            if path == "loader":
+                return ("ret", fickling.load(io.BytesIO(data), max_acceptable_severity=getattr(analysis.Severity, thr)))
+            if path == "context":
+                with fickling.check_safety():
+                    return ("ret", pickle.load(io.BytesIO(data)))
+            return ("ret", pickle.load(io.BytesIO(data)))
+        except U as e:
+            return ("unsafe", e.info.get("severity"))
+        except Exception as e:
+            return ("exc", type(e).__name__)
+
+    rounds = {"quick": 3, "thorough": 25}[ctx.tier]
+    for path, thr in (("loader", "LIKELY_SAFE"), ("loader", "SUSPICIOUS"), ("hook", "LIKELY_SAFE")):
+        if path == "hook":
+            fickling.always_check_safety()
+        try:
+            inputs = fl[:3] + benign[:3]
+            del vp_sink.LOG[:]
+            want = [one(d, path, thr) for _, d in inputs]
+            want_log = list(vp_sink.LOG)
+            # the same question from a worker thread, alone
+            for (lab, d), w0 in zip(inputs, want):
+                del vp_sink.LOG[:]
+                kind, got = threads.in_worker(one, d, path, thr)
+                agg.count("worker_thread_loads")
+                if kind != "ok" or not _eq(got, w0):
+                    agg.violation(f"worker-thread-load-differs:{path}",
+                                  f"{lab}: {w0!r} from the main thread, {got!r} from a worker thread"[:300],
+                                  {"label": lab, "hex": d.hex(), "threshold": thr, "path": path, "threaded": "worker"})
+            for r in range(rounds):
+                del vp_sink.LOG[:]
+                reps = 4
+
+                def job(d=None):
+                    return [one(d, path, thr) for _ in range(reps)]
+                res, st = threads.race([(lambda d=d: job(d)) for _, d in inputs], seed=ctx.seed * 1000 + ctx.shard * 100 + r)
+                agg.count("threaded_load_rounds")
+                agg.count("threaded_yields_injected", st["yields_injected"])
+                log = list(vp_sink.LOG)
+                for (lab, d), w0, (kind, got) in zip(inputs, want, res):
+                    agg.case(h(repr((lab, path, thr, r, ctx.shard)).encode()), True, {"threaded": path})
+                    wit = {"label": lab, "hex": d.hex(), "threshold": thr, "path": path, "threaded": "race",
+                           "others": [x.hex() for _, x in inputs]}
+                    if kind != "ok":
+                        agg.violation(f"threaded-load-differs:{path}", f"{lab}: thread ended with {kind} {got!r}"[:300], wit)
+                        continue
+                    bad = next((g for g in got if not _eq(g, w0)), None)
+                    if bad is not None:
+                        agg.violation(f"threaded-load-differs:{path}",
+                                      f"{lab}: {w0!r} single-threaded, {bad!r} while other threads load other pickles"[:300], wit)
+                want_calls = sorted(repr(x) for x in want_log) * reps
+                if sorted(repr(x) for x in log) != sorted(want_calls):
+                    agg.violation(f"threaded-load-effects-differ:{path}",
+                                  f"calls made during the concurrent loads {log[:3]!r} are not {reps} x the single-threaded ones {want_log[:3]!r}"[:300],
+                                  {"path": path, "threshold": thr, "threaded": "race", "others": [x.hex() for _, x in inputs]})
+        finally:
+            if path == "hook":
+                hook.remove_hook()
+    del vp_sink.LOG[:]
+
+
 def run_shard(ctx):
     mods, watch = setup(ctx)
+    threaded_loads(ctx, mods)
     file_rewrite_histories(ctx, mods)
     unwritable_report(ctx, mods)
     for i, c in enumerate(cases(ctx, mods)):
@@ -855,6 +933,9 @@ def replay(ctx, payload):
     c = payload["case"]
     if "sequence" in c:
         run_sequence(ctx, mods, c["sequence"])
+        return
+    if c.get("threaded"):
+        threaded_loads(ctx, mods)
         return
     fault = tuple(c["fault"]) if c.get("fault") else None
     run_case(ctx, mods, watch, c.get("label", "replay"), bytes.fromhex(c["hex"]), c["threshold"], c["path"],
